@@ -169,6 +169,8 @@ def events_B():
             out.append(('edit', n))
     out.append(('save',))
     out.append(('save-refused',))          # Tor answers the SETCONF 513: the edits stay pending
+    for n in ('LineOpt', 'IntOpt'):
+        out.append(('save-then-edit', n))  # option n is edited between save() and Tor's answer: that edit stays pending
     for n in ('LineOpt', 'SocksPort'):
         out.append(('assign-same', n))          # X = list(X): a whole-list assignment whose content equals the current view
     # one event announcing two options: a list option first, every other option second
@@ -191,7 +193,7 @@ class RunB(object):
         self.log = []
         self.defaults = B_DEFAULTS if with_defaults is True else {}
         with World() as w:
-            impl = CfgImpl(w, [(n, B_INIT[n]) for n in B_OPTIONS], defaults=self.defaults)
+            impl = CfgImpl(w, [(n, B_INIT[n]) for n in B_OPTIONS], defaults=self.defaults, attach=(with_defaults == 'attach'))
             self.impl = impl
             # 'echo': Tor announces this controller's own SETCONFs with CONF_CHANGED too (before the 250), as the real one does
             impl.sim.echo_conf_changed = (with_defaults == 'echo')
@@ -301,6 +303,28 @@ class RunB(object):
                 return
             self.dirty.add(name)
             return
+        elif ev[0] == 'save-then-edit':
+            name = ev[1]
+            if not self.dirty:
+                self.skip = True
+                return
+            sim.hold_prefixes = ['SETCONF']
+            d = cfg.save()
+            d.addErrback(lambda f: None)
+            sim.pump()
+            self.counter += 1
+            if TYPES[name][1] == 'int':
+                setattr(cfg, name, 170 + self.counter)
+            else:
+                getattr(cfg, name).append('late%d' % self.counter)
+            sim.hold_prefixes = []
+            sim.pump()
+            self.dirty = set([name])
+            self.assigned = {}
+            if not cfg.needs_save():
+                self.viol.append(('edit-during-save-lost', 'needs_save', 'option %s was changed between save() and its acknowledgement; '
+                                  'needs_save() is False afterwards' % name))
+                return
         elif ev[0] == 'save-refused':
             if not self.dirty:
                 self.skip = True
@@ -453,6 +477,7 @@ def tasks(tier, seed):
         out.append(('B', i, False))
         out.append(('B', i, True))
         out.append(('B', i, 'echo'))
+        out.append(('B', i, 'attach'))
     return out
 
 
